@@ -17,8 +17,9 @@ from vf import mpslib
 
 ID = 'C20'
 LEVEL = 'exploration'
-RULE = ('cases = (a) exhaustive: score matrices over the value grid {0.1,0.4,0.7,0.9} for 2..3 '
-        'precisions x 1..4 channels (2x5 and 3x5 sampled in quick, complete in thorough) with ALL '
+RULE = ('cases = (a) score matrices over the value grid {0.1,0.4,0.7,0.9} for 2..3 precisions x 1..4 '
+        'channels in chunks of 4096 (all chunks when <= 12 (quick) / 400 (thorough) per size, '
+        'i.e. complete up to 3x3 in thorough; sampled chunks beyond) with ALL '
         'compositions of the channel count as targets; (b) seeded random matrices up to 4 '
         'precisions x 8 channels with all / random compositions; (c) per-channel MPS models (3x3 / '
         '1x1 conv, depthwise 3x3, linear; 8-bit activations) with the NE16 cost specification and '
@@ -31,9 +32,9 @@ ASSUMPTIONS = [
     'by wrapping plinio.methods.mps.utils._reassign_precisions at its call boundary',
 ]
 REQUIRED_MONITORS = ['c20.reassign_direct', 'c20.reassign_insitu', 'c20.e2e']
-MIN_NONTRIVIAL = {'quick': 400, 'thorough': 5000}
+MIN_NONTRIVIAL = {'quick': 400, 'thorough': 2000}
 EXHAUSTIVE = {'quick': False, 'thorough': False}
-EXHAUSTIVE_NOTE = 'grid matrices up to 3x4 with all compositions are enumerated completely'
+EXHAUSTIVE_NOTE = 'thorough: grid matrices up to 3x3 (and 2x4) with all compositions are complete; 3x4 is sampled'
 GRID = (0.1, 0.4, 0.7, 0.9)
 
 
@@ -53,8 +54,9 @@ def cases(tier, seed):
         for C in (1, 2, 3, 4):
             total = len(GRID) ** (P * C)
             nchunks = max(1, total // 4096)
-            if tier == 'quick' and nchunks > 12:
-                chunks = random.Random(seed).sample(range(nchunks), 12)
+            cap = 12 if tier == 'quick' else 400
+            if nchunks > cap:
+                chunks = random.Random(seed).sample(range(nchunks), cap)
             else:
                 chunks = range(nchunks)
             for ch in chunks:
